@@ -311,6 +311,49 @@ def is_dew(op):
     return op in ('dewP', 'dewT')
 
 
+class InnerMonitor:
+    """Observation hook for classification only: while a non-ideal dew point is solved, `dew_point.solve_x` is
+    wrapped so that the fixed-point error |gamma_iter(gamma) - gamma| of every inner solution is measured.  The
+    inner loop is flx.wegstein(..., checkconvergence=False, convergenceiter=5), which can return an unconverged,
+    unevaluated iterate; `tag` says whether that happened during the call (relative error > 1e-9)."""
+    def __init__(self):
+        self.worst = 0.0
+        self.mod = None
+
+    def __enter__(self):
+        import sys
+        mod = sys.modules.get('thermosteam.equilibrium.dew_point')
+        if mod is None or not hasattr(mod, 'solve_x') or not hasattr(mod, 'gamma_iter'):
+            return self
+        self.mod = mod; self.orig = orig = mod.solve_x
+        mon = self
+
+        def solve_x(x_guess, x_gamma, T, P, f_gamma, gamma_args):
+            x = orig(x_guess, x_gamma, T, P, f_gamma, gamma_args)
+            try:
+                with np.errstate(all='ignore'):
+                    g = x_gamma / x                      # the gamma the inner loop settled on
+                    g2 = mod.gamma_iter(g, x_gamma, T, P, f_gamma, gamma_args)
+                    ok = np.isfinite(g) & np.isfinite(g2) & (x_gamma > 0)
+                    if ok.any():
+                        mon.worst = max(mon.worst, float(np.abs(g2[ok] / g[ok] - 1.0).max()))
+            except Exception:
+                pass
+            return x
+        mod.solve_x = solve_x
+        return self
+
+    def __exit__(self, *exc):
+        if self.mod is not None:
+            self.mod.solve_x = self.orig
+        return False
+
+    @property
+    def tag(self):
+        if self.mod is None: return 'inner=na'
+        return 'inner=bad' if self.worst > 1e-9 else 'inner=ok'
+
+
 def solve(ctx, s, op, spec, z=None, site=None):
     """Return (T, P, w) with w = y (bubble) or x (dew); z defaults to the system's composition."""
     z = s.z if z is None else z
@@ -318,18 +361,29 @@ def solve(ctx, s, op, spec, z=None, site=None):
     snap = zin.tobytes()
     site = site or op
     region = s.region(is_dew(op))
+    s.inner = ''
     if op == 'bubP': r = ctx.call(site, s.BP, zin, T=spec, region=region); w = r.y
     elif op == 'bubT': r = ctx.call(site, s.BP, zin, P=spec, region=region); w = r.y
-    elif op == 'dewP': r = ctx.call(site, s.DP, zin, T=spec, region=region); w = r.x
     else:
+        monitored = s.pkg != 'ideal' and s.npos > 1
+        mon = InnerMonitor()
         try:
-            r = ctx.call(site, s.DP, zin, P=spec, region=region); w = r.x
+            if monitored:
+                with mon:
+                    r = ctx.call(site, s.DP, zin, **({'T': spec} if op == 'dewP' else {'P': spec}), region=region)
+            else:
+                r = ctx.call(site, s.DP, zin, **({'T': spec} if op == 'dewP' else {'P': spec}), region=region)
+            w = r.x
         except Violation as v:
-            # classify a diverged dew-temperature solve by the quality of DewPoint's own initial guess (C08-F5)
+            # classify a diverged dew solve: was an inner solution unconverged (C08-F6), and for dew temperatures
+            # how good was DewPoint's own initial guess (C08-F5)
             if '|exc:' in v.sig and s.npos > 1:
                 head, kind = v.sig.rsplit('|', 1)
-                raise Violation(f'{head},{guess_tag(s, spec)}|{kind}', v.msg)
+                if monitored: head += ',' + mon.tag
+                if op == 'dewT': head += ',' + guess_tag(s, spec)
+                raise Violation(f'{head}|{kind}', v.msg)
             raise
+        if monitored: s.inner = ',' + mon.tag
     if zin.tobytes() != snap:
         ctx.fail(f'{site}|{region}|z-modified', 'the caller\'s composition array was modified')
     T, P = float(r.T), float(r.P)
@@ -440,6 +494,7 @@ def check_point(ctx, s, op, T, P, w, site):
     if res <= RES_TOL: ctx.metric_max(f'{tag}:residual(passing)', res)
     else: ctx.metric_max(f'{tag}:residual(failing)', res)
     if not res <= RES_TOL:
+        if is_dew(op): region += getattr(s, 'inner', '')
         if op == 'dewT': region += ',' + guess_tag(s, P)
         # minor: 1e-6 < |sum-1| <= 1e-4 (noise of an unconverged inner iteration); gross: anything larger
         kind = 'residual-minor' if res <= 1e-4 else 'residual'
@@ -517,17 +572,18 @@ def prop_point(ch, ctx):
         require_box(ctx, s, T, P)
         check_single(ctx, s, op, T, P, w, op)
     else:
-        # a dew result outside the box may be an unconverged one: judge the equation first
-        if not is_dew(op) or dew_converged(s, op, T, P, w):
+        # a result outside the box may be an unconverged one: judge the equation first
+        if dew_converged(s, op, T, P, w):
             judge_box(ctx, s, op, T, P, op)
         check_point(ctx, s, op, T, P, w, op)
         ctx.nontriv(['point', op, s.key()])
 
 
 def _reject_bad_dew(ctx, s, op, T, P, w):
+    """Relational checks: a result that does not satisfy its own equation is the point check's finding."""
     if s.npos > 1 and not dew_converged(s, op, T, P, w):
-        ctx.cell('dew-unconverged(reported by point)')
-        ctx.reject('dew point does not satisfy its equation (reported by the point check)')
+        ctx.cell(('dew' if is_dew(op) else 'bubble') + '-unconverged(reported by point)')
+        ctx.reject('bubble/dew point does not satisfy its equation (reported by the point check)')
 
 
 def prop_roundtrip(ch, ctx):
@@ -540,10 +596,10 @@ def prop_roundtrip(ch, ctx):
     if first == 'T':
         T0 = draw_T(ch, s, ctx)
         _, P1, w1 = solve(ctx, s, opP, T0, site='rt.' + opP)
-        if kind == 'dew': _reject_bad_dew(ctx, s, opP, T0, P1, w1)
+        _reject_bad_dew(ctx, s, opP, T0, P1, w1)
         require_box(ctx, s, T0, P1)
         T2, _, w2 = solve(ctx, s, opT, P1, site='rt.' + opT)
-        if kind == 'dew': _reject_bad_dew(ctx, s, opT, T2, P1, w2)
+        _reject_bad_dew(ctx, s, opT, T2, P1, w2)
         require_box(ctx, s, T2, P1)
         ctx.cell('rt:T-P-T')
         err = abs(T2 - T0)
@@ -553,10 +609,10 @@ def prop_roundtrip(ch, ctx):
     else:
         P0 = draw_P(ch, s, ctx)
         T1, _, w1 = solve(ctx, s, opT, P0, site='rt.' + opT)
-        if kind == 'dew': _reject_bad_dew(ctx, s, opT, T1, P0, w1)
+        _reject_bad_dew(ctx, s, opT, T1, P0, w1)
         require_box(ctx, s, T1, P0)
         _, P2, w2 = solve(ctx, s, opP, T1, site='rt.' + opP)
-        if kind == 'dew': _reject_bad_dew(ctx, s, opP, T1, P2, w2)
+        _reject_bad_dew(ctx, s, opP, T1, P2, w2)
         require_box(ctx, s, T1, P2)
         ctx.cell('rt:P-T-P')
         atm = int(P0 == 101325.0 and s.npos == 1)
@@ -583,6 +639,7 @@ def prop_order(ch, ctx):
         T = draw_T(ch, s, ctx)
         _, Pb, y = solve(ctx, s, 'bubP', T, site='order.bubP')
         _, Pd, x = solve(ctx, s, 'dewP', T, site='order.dewP')
+        _reject_bad_dew(ctx, s, 'bubP', T, Pb, y)
         _reject_bad_dew(ctx, s, 'dewP', T, Pd, x)
         if not (in_box(s, T, Pb) and in_box(s, T, Pd)):
             ctx.cell('outside-box'); ctx.reject('computed T/P outside the quantified box')
@@ -599,6 +656,7 @@ def prop_order(ch, ctx):
         P = draw_P(ch, s, ctx)
         Tb, _, y = solve(ctx, s, 'bubT', P, site='order.bubT')
         Td, _, x = solve(ctx, s, 'dewT', P, site='order.dewT')
+        _reject_bad_dew(ctx, s, 'bubT', Tb, P, y)
         _reject_bad_dew(ctx, s, 'dewT', Td, P, x)
         if not (in_box(s, Tb, P) and in_box(s, Td, P)):
             ctx.cell('outside-box'); ctx.reject('computed T/P outside the quantified box')
@@ -635,7 +693,7 @@ def prop_scale(ch, ctx):
     spec = draw_T(ch, s, ctx) if op in ('bubP', 'dewP') else draw_P(ch, s, ctx)
     cells(ctx, s, op)
     base = solve(ctx, s, op, spec, site='scale.' + op)
-    if is_dew(op): _reject_bad_dew(ctx, s, op, *base)
+    _reject_bad_dew(ctx, s, op, *base)
     require_box(ctx, s, base[0], base[1])
     scaled = solve(ctx, s, op, spec, z=s.z * k, site='scale.' + op + '.k')
     compare(ctx, 'scale.' + op, s.region(is_dew(op)), base, scaled,
@@ -654,10 +712,10 @@ def prop_perm(ch, ctx):
         ctx.cell('perm:identity')
     s2 = System([s.names[i] for i in p], s.pkg, [float(s.z[i]) for i in p], s.zkind)
     base = solve(ctx, s, op, spec, site='perm.' + op)
-    if is_dew(op): _reject_bad_dew(ctx, s, op, *base)
+    _reject_bad_dew(ctx, s, op, *base)
     require_box(ctx, s, base[0], base[1])
     T2, P2, w2 = solve(ctx, s2, op, spec, site='perm.' + op)
-    if is_dew(op): _reject_bad_dew(ctx, s2, op, T2, P2, w2)
+    _reject_bad_dew(ctx, s2, op, T2, P2, w2)
     back = np.zeros(s.n)
     for k, i in enumerate(p): back[i] = w2[k]
     compare(ctx, 'perm.' + op, s.region(is_dew(op)), base, (T2, P2, back),
